@@ -238,11 +238,20 @@ def run(ctx):
             return None
 
         pf = PredFlow(nx, lambda subj, v: None, cbool)  # P = "idx < len"
-        ok = len(lo) == 1 and pf.at(lo[0][0].bb) == "P"
+        ok = len(lo) == 1 and lo[0][0].fn is nx and pf.at(lo[0][0].bb) == "P"
         if not ok and DF.get("_range") is not None and len(lo) == 1:
             # the cursor is the range 0..len: a slot is read only with an index that range's next() produced
             txt = repr(lo[0][2])
             ok = "range::Range" in txt and "Iterator>::next" in txt and f"'{DF['idx']}'" in txt and "'Some'" in txt
+            if not ok and lo[0][0].fn is not nx and "('arg', 1" in txt:
+                # `self.<range>.next().map(|slot| load(values[slot]))`: the closure's parameter is that next()'s payload
+                for c_ in nonforeign_calls(nx):
+                    if c_.fn is nx and c_.is_("Option<T>::map"):
+                        a_ = arg_syms(c_)
+                        cl_ = strip_sym(a_[1])
+                        rcv = repr(a_[0])
+                        if cl_[0] == "agg" and cl_[1] == "closure" and cl_[5] == lo[0][0].fn.path and "range::Range" in rcv and "Iterator::next" in rcv and f"'{DF['idx']}'" in rcv:
+                            ok = True
         chk.ob("C16.b", nx.path, ok, "next() yields values[idx] only while idx < len" if ok else "Drain::next can yield beyond min(count, capacity)", nx.loc())
     dd_ = (u.method(D, "drop", "Drop") or [None])[0]
     if dd_:
